@@ -37,6 +37,7 @@ def partition(ctx, rule, modname, cls_qual, fn, f_true, f_false, domain, pred, w
         ctx.undecided(rule, site, f"{fn.name}: the two lists are not filled under one test and its negation", "")
         return None
     test, pol, common = sc
+    test = x.canon(test)          # a flag container held in a local is the attribute it is stored in
     if common:
         ctx.undecided(rule, site, f"{fn.name}: the classification of {what} is itself guarded by a further condition", "")
         return None
@@ -289,11 +290,22 @@ def relation_insertions(x, table):
             v = q._strip_conv(e.value)
             if sx.is_special(v, "$obj"):
                 stored[v.id] = e
+    copied = {}          # $objD -> True when self.<table> = {k: conv($objD[k]) for k in $objD}
+    for e in x.effects:
+        if e.kind == "setattr" and q.q_is_self(e.base) and e.key == table:
+            v = e.value if not sx.is_special(e.value, "$obj") else x.objs[e.value.id].init
+            if isinstance(v, ast.DictComp) and hasattr(v, "_frames") and len(v._frames) == 1 and v._frames[0].kind == "keys" \
+                    and sx.is_special(v._frames[0].dom, "$obj") and not v._conds and isinstance(v.key, ast.Name) and v.key.id == v._frames[0].var:
+                val = q._strip_conv(v.value)
+                if isinstance(val, ast.Subscript) and q.same(val.value, v._frames[0].dom) and q.same(val.slice, v.key):
+                    copied[v._frames[0].dom.id] = True
     for e in x.effects:
         if e.kind != "call" or e.method not in ("append", "add") or e.base is None or len(e.args) != 1:
             continue
         b = x.canon(e.base)
         k = q.lookup_key(b, table)
+        if k is None and isinstance(e.base, ast.Subscript) and sx.is_special(e.base.value, "$obj") and e.base.value.id in copied:
+            k = e.base.slice
         if k is None and isinstance(b, ast.Call) and isinstance(b.func, ast.Attribute) and b.func.attr == "setdefault" and q.field(b.func.value) == table and b.args:
             k = b.args[0]
         if k is not None:
